@@ -120,6 +120,7 @@ def get_unit_labels_and_distances(
     provenance: Provenance,
     units: NDArray,
     world: NDArray,
+    null_label: int = 0,
 ) -> Tuple[NDArray, NDArray]:
     n_train, n_test, n_units = distances.shape[0], distances.shape[1], len(units)
     assert labels.ndim == 1
@@ -142,6 +143,12 @@ def get_unit_labels_and_distances(
         unit = units[i]
         query[unit] = world[i]
         gidx = provenance.query(query)
+        query[unit] = 0
+        if not np.any(gidx):
+            # A unit that owns no tuples is never the nearest neighbor: it gets the null label at an infinite distance.
+            unit_labels[i, :] = null_label
+            unit_distances[i, :] = np.inf
+            continue
         glabels = labels[gidx]
         gdistances = np.array(distances[gidx], dtype=float)
         gidx_min = np.argmin(gdistances, axis=0)
@@ -149,7 +156,6 @@ def get_unit_labels_and_distances(
             idx = gidx_min[j]
             unit_labels[i, j] = glabels[idx]
             unit_distances[i, j] = gdistances[idx, j]
-        query[unit] = 0
     return unit_labels, unit_distances
 
 
@@ -193,7 +199,9 @@ def compute_shapley_1nn_mapfork(
     null_scores: Optional[NDArray] = None,
 ) -> NDArray:
     # Compute the minimal distance for each unit and each test example.
-    unit_labels, unit_distances = get_unit_labels_and_distances(labels, distances, provenance, units, world)
+    unit_labels, unit_distances = get_unit_labels_and_distances(
+        labels, distances, provenance, units, world, null_label=label_utilities.shape[0]
+    )
 
     # Compute unit importances.
     n_test = distances.shape[1]
